@@ -16,6 +16,7 @@
   Ghost fields (no counterpart in the code; only written, never read by the transitions): `Entry.ncomp`, `Entry.nret`,
   `Entry.got`, `Slot.gen`, `State.allocLog`, `State.respLog`, `State.wireLog`, `State.loserSeen`.
 -/
+import ClientGoVerif.Generated.BatchMuxConsts
 namespace CGV.BatchMux
 
 inductive Err | canceled | timeout | closed | stream | sendfail | noconn
@@ -101,7 +102,8 @@ structure State where
   loserSeen : Bool := false
   deriving Repr
 
-def highTaskPriority : Nat := 10
+/-- `const highTaskPriority` of client_batch.go (regenerated on every run) -/
+def highTaskPriority : Nat := Gen.c18_highTaskPriority
 
 /-! ## entries -/
 
